@@ -386,7 +386,34 @@ func runC16(c *Ctx, r *Report) {
 		})
 		r.Check(okRange, "C16.R3", ssaFuncName(initFn), "keyword table filled for startIdentityTokens+1 .. endIdentityTokens-1", c.Pos(initFn.Pos()), "the keyword table is not filled by a loop over the whole identity-token range")
 	}
-	r.Floor("C16.R3", 3)
+	// one canonical instance per constant token: the pointer registered by type is the one the lexer hands out
+	for _, spec := range []struct{ fn, table string }{{"assoc", "cTokens"}, {"assocC2", "c2Tokens"}} {
+		af := c.SSAFn(c.Fn("token", spec.fn))
+		var byType, byLex ssa.Value
+		eachInstr(af, func(in ssa.Instruction) {
+			mu, ok := in.(*ssa.MapUpdate)
+			if !ok {
+				return
+			}
+			ld, ok := mu.Map.(*ssa.UnOp)
+			if !ok {
+				return
+			}
+			g, ok := ld.X.(*ssa.Global)
+			if !ok {
+				return
+			}
+			switch g.Name() {
+			case "tToT":
+				byType = mu.Value
+			case spec.table:
+				byLex = mu.Value
+			}
+		})
+		r.Check(byType != nil && byType == byLex, "C16.R3", ssaFuncName(af), "the token registered by type is the instance the lexer returns", c.Pos(af.Pos()),
+			"the by-type table and the lexer's table hold different Token objects for the same token: pointer comparisons with token.ByType (macro definitions, unquote detection) silently fail")
+	}
+	r.Floor("C16.R3", 5)
 
 	// ---- R4 ----
 	{
